@@ -63,9 +63,38 @@ def py_val(j):
         return [py_val(x) for x in v]
     if t == "tuple":
         return tuple(py_val(x) for x in v)
+    if t == "ext":
+        return ext_val(j["k"], v)
     if t == "obj":
         return {"object": object(), "complex": 1j, "dict": {"a": 1}, "set": {1, 2}, "timedelta": datetime.timedelta(1), "time": datetime.time(1, 2)}[v]
     raise InfraError("bad value tag %r" % (j,))
+
+
+def ext_val(kind, v):
+    """objects of classes next to the canonical ones: other binary classes, numpy scalars (class clause only)"""
+    import numpy
+
+    if kind == "bytearray":
+        return bytearray(v)
+    if kind == "memoryview":
+        return memoryview(bytes(v))
+    if kind == "np.int64":
+        return numpy.int64(v)
+    if kind == "np.uint64":
+        return numpy.uint64(v)
+    if kind == "np.float64":
+        return numpy.float64(v)
+    if kind == "np.float32":
+        return numpy.float32(v)
+    if kind == "np.bool_":
+        return numpy.bool_(v)
+    if kind == "np.str_":
+        return numpy.str_(v)
+    if kind == "np.bytes_":
+        return numpy.bytes_(v)
+    if kind == "np.datetime64":
+        return numpy.datetime64(v)
+    raise InfraError("bad ext kind %r" % (kind,))
 
 
 def tag(v):
@@ -357,6 +386,8 @@ def in_domain(c):
     name = c["ty"][0]
     if name not in SCALARS:
         return False  # ARRAY is handled separately; other types only by the null clause
+    if c["val"] is not None and c["val"].get("t") == "ext":
+        return False  # classes next to the canonical ones: oracle (class / equality clauses) only
     v = py_val(c["val"])
     if v is None:
         return True
@@ -1473,6 +1504,101 @@ def float_repr_sample(ctx, n):
     ctx.hit("float-repr-parameter-samples", n)
 
 
+def float_text_param(ctx, n):
+    """The parameter record `FloatTextParam` of `C07.double_text_forms`, checked on the interpreter (orso out of the
+    picture; a mismatch is a harness error): the boundary table `Cast.floatSpecials` (fetched from the model driver)
+    against `float(text)` bit for bit, and white-space padding on sampled doubles.  Returns the table."""
+    o = ctx.model.batch(["C07 floatspecials"])[0]
+    if not o.startswith("ok "):
+        raise InfraError("model rejected floatspecials: %r" % o)
+    table = wire.dec_all(o[3:])[0]
+    for text, f in table:
+        g = float(text)
+        if struct.pack(">d", g) != struct.pack(">d", f):
+            raise InfraError("parameter table: float(%r) is %r here, the table says %r" % (text, g, f))
+        if struct.pack(">d", float(text.encode("ascii"))) != struct.pack(">d", f):
+            raise InfraError("parameter table: float(bytes %r) differs" % text)
+        ctx.hit("float-text-parameter:table-entry")
+    rng = ctx.rng
+    ws = [" ", "\t", "\n", "\r", "\x0b", "\x0c"]
+    for _ in range(n):
+        bits = rng.getrandbits(64) if rng.random() < 0.8 else rng.getrandbits(52)
+        f = struct.unpack(">d", struct.pack(">Q", bits))[0]
+        t = "".join(rng.choice(ws) for _ in range(rng.randint(0, 3))) + repr(f) + "".join(rng.choice(ws) for _ in range(rng.randint(0, 3)))
+        g = float(t)
+        if not (struct.pack(">d", g) == struct.pack(">d", f) or (f != f and g != g)):
+            raise InfraError("parameter violated: float(%r) != %r" % (t, f))
+    ctx.hit("float-text-parameter:padding-samples", n)
+    return table
+
+
+def boundary_cases(ctx, table):
+    """Inputs at the limits of every cast (distribution printed into the evidence under `boundary:*`)."""
+    rng = ctx.rng
+
+    def hit(k, c):
+        ctx.hit("boundary:" + k)
+        return c
+
+    # DOUBLE: every text form of the parameter table, as text, bytes, padded
+    for text, f in table:
+        yield hit("double-text-form", case(["DOUBLE"], text, "float text form (boundary table)", f))
+        yield hit("double-text-form", case(["DOUBLE"], text.encode(), "float text form (boundary table)", f))
+        yield hit("double-text-form", case(["DOUBLE"], pad(rng, text), "float text form (boundary table, padded)", f))
+    for f in [0.0, -0.0, 5e-324, -5e-324, 2.2250738585072014e-308, 2.225073858507201e-308, 1.7976931348623157e308, -1.7976931348623157e308,
+              float("inf"), float("-inf"), float("nan"), struct.unpack(">d", struct.pack(">Q", 0x7FF8000000000001))[0],
+              struct.unpack(">d", struct.pack(">Q", 0xFFF8000000000000))[0], 2.0**63, -(2.0**63), 2.0**64, 1e308]:
+        yield hit("double-limit", case(["DOUBLE"], f, "identity on a typed value", f))
+        if f == f:
+            yield hit("double-limit", case(["DOUBLE"], repr(f), "float rendering (repr)", f))
+            yield hit("double-limit", case(["DOUBLE"], " " + repr(f) + "\n", "float rendering (padded repr)", f))
+        yield hit("double-limit", case(["VARCHAR", None], f))
+        yield hit("double-limit", case(["INTEGER"], f))
+        yield hit("double-limit", case(["BOOLEAN"], f))
+    # INTEGER: the 64-bit limits and CPython's 4300-digit limit, every rendering
+    for k in [2**63 - 1, 2**63, 2**63 + 1, -(2**63) - 1, -(2**63), 2**64 - 1, 2**64, 2**64 + 1, 10**4299, 10**4300 - 1, -(10**4300) + 1, 2**1024, -(2**1024)]:
+        for v, cl in ((k, "identity on a typed value"), (str(k), "integer rendering"), (str(k).encode(), "integer rendering"),
+                      ("\t " + str(k) + " \n", "integer rendering (padded)"), (("\x0b" + str(k) + "\x0c").encode(), "integer rendering (padded)")):
+            yield hit("integer-limit", case(["INTEGER"], v, cl, k))
+        yield hit("integer-limit", case(["DOUBLE"], k))
+        yield hit("integer-limit", case(["DECIMAL", 38, 0], k))
+        yield hit("integer-limit", case(["VARCHAR", None], k))
+    for t in ["1" + "0" * 4300, "-1" + "0" * 4300, " " + "9" * 4300 + " ", "9" * 4301, "0" * 4300 + "1", "1\x00", "\x001", "1\x002", "\x00", "+", "-", "+-1", "1e", "١٢٣", "1\xa0",
+              " 1", "１２３", "1_2_3", "1__2", "٣_٣", "-٣", "1​", "0b1", "0o7", "00", "-00", "+007", "1\n2", "﻿1"]:
+        yield hit("integer-odd-text", case(["INTEGER"], t))
+        yield hit("integer-odd-text", case(["INTEGER"], t.encode("utf-8")))
+        yield hit("integer-odd-text", case(["DOUBLE"], t))
+        yield hit("integer-odd-text", case(["DECIMAL", 38, 0], t))
+    # bool as int, int as bool
+    for v in [True, False]:
+        yield hit("bool-as-int", case(["INTEGER"], v, "identity on a typed value", int(v)))
+        yield hit("bool-as-int", case(["DOUBLE"], v))
+        yield hit("bool-as-int", case(["DECIMAL", 5, 2], v))
+        yield hit("bool-as-int", case(["VARCHAR", 2], v))
+        yield hit("bool-as-int", case(["BLOB", 2], v))
+    # text / binary: empty, NUL, limits exactly at / one past the length, four-byte characters cut by bytes
+    for s_ in ["", "\x00", "a\x00b", "\x00\x00\x00", "日\x00本", "\U0001f600\x00", "a" * 255, "a" * 256, "﻿a", "é", "‍\U0001f468", "\r\n\t "]:
+        for n_ in (None, 0, 1, 2, 3, len(s_), len(s_) + 1, max(len(s_) - 1, 1), len(s_.encode()), 2**31, 2**63, 2**64):
+            want = s_ if not n_ else s_[:n_]
+            yield hit("text-limit", case(["VARCHAR", n_], s_, "text: longest prefix within the length", want))
+            yield hit("text-limit", case(["VARCHAR", n_], s_.encode(), "text: longest prefix within the length (bytes)", want))
+            b_ = s_.encode()
+            wb = b_ if not n_ else b_[:n_]
+            yield hit("text-limit", case(["BLOB", n_], b_, "binary: longest prefix within the length", wb))
+            yield hit("text-limit", case(["BLOB", n_], s_, "binary: longest prefix within the length (text)", wb))
+    # classes next to the canonical ones (no clause but class / totality; numpy float64 *is* a float)
+    for kind, v in [("bytearray", b"12"), ("bytearray", b""), ("bytearray", b"true"), ("memoryview", b"12"), ("memoryview", b"2020-01-02"),
+                    ("np.int64", 5), ("np.int64", -2**63), ("np.uint64", 2**64 - 1), ("np.float64", 1.5), ("np.float64", -0.0), ("np.float64", float("nan")),
+                    ("np.float32", 0.1), ("np.bool_", True), ("np.bool_", False), ("np.str_", "12"), ("np.str_", "true"), ("np.bytes_", b"12"),
+                    ("np.datetime64", "2020-01-02"), ("np.datetime64", "2020-01-02T03:04:05")]:
+        for tname in SCALARS:
+            c = {"ty": ty_of(tname, p=10, s=2, n=3), "val": {"t": "ext", "k": kind, "v": v}}
+            if kind == "np.float64" and tname == "DOUBLE":
+                c["clause"], c["expect"] = "identity on a typed value (numpy.float64 is a float)", tag(float(v))
+            yield hit("foreign-class:" + kind, c)
+        yield hit("foreign-class:" + kind, {"ty": ["ARRAY", ["INTEGER"]], "val": {"t": "ext", "k": kind, "v": v}, "no_model": True})
+
+
 def text_cases(ctx, n):
     rng = ctx.rng
     for _ in range(n):
@@ -1874,12 +2000,14 @@ def run(ctx):
     ])
     ctx.exhaustive = False
     float_repr_sample(ctx, ctx.scale(100000, 1000000))
+    ftable = float_text_param(ctx, ctx.scale(20000, 200000))
     json_mirror(ctx, ctx.scale(1500, 20000))
     default_cases(ctx)
     batches(ctx, null_cases(ctx))
     batches(ctx, bool_cases(ctx))
     batches(ctx, int_cases(ctx, ctx.scale(1500, 20000)))
     batches(ctx, double_cases(ctx, ctx.scale(3000, 40000)))
+    batches(ctx, boundary_cases(ctx, ftable))
     batches(ctx, text_cases(ctx, ctx.scale(800, 10000)))
     batches(ctx, temporal_cases(ctx, ctx.scale(400, 5000)))
     batches(ctx, decimal_cases(ctx, grid(ctx), ctx.scale(6, 12)))
